@@ -229,7 +229,7 @@ func findRefSegMetaFromTime(a *asset, rep *RepData, time uint64, cfg *ResponseCo
 	refRep := a.refRep
 	refTotDur := uint64(refRep.duration())
 	nrSegs := uint64(len(refRep.Segments))
-	refTime := time * uint64(refRep.MediaTimescale) / uint64(rep.MediaTimescale)
+	refTime, _ := mulDiv64(time, uint64(refRep.MediaTimescale), uint64(rep.MediaTimescale))
 	nrWraps := refTime / refTotDur
 	wrapTime := nrWraps * refTotDur
 	wrapNr := nrWraps * nrSegs
